@@ -1,7 +1,7 @@
 (* C08: the cases written by the harness (harness/src/c08.rs) and how the models are run on them.
    Definitions only. *)
 From ZV.Common Require Import Base Run.
-From ZV.C08 Require Import Model ModelFixedCap ModelStats.
+From ZV.C08 Require Import Model ModelFixedCap ModelStats ModelSecure.
 Open Scope N_scope.
 
 Definition eqb_oln (a b : option (list N)) : bool :=
@@ -47,14 +47,29 @@ Definition ok_tag2 (c2 : tag2_case) : bool :=
   eqb_ln (flat ev) notes && eqb_ln f1 fin && eqb_oln f2 free && eqb_lln f3 helds &&
   eqb_ln (stats_obs cf (xst x)) st.
 
+(* secure_pool.rs: local_cache_size, threads, schedule (stack node addresses are the real ones, the
+   allocator may reuse them), notes, chunks on the shared stack (serials, top first), held serials per
+   thread, cached serials per thread (top first), [alloc_count; dealloc_count; pool_hits; pool_misses;
+   local_cache_hits; cross_thread_steals; double_free_detected; active table size] *)
+Definition sp_case : Type :=
+  N * nat * list (nat * scmd) * list N * option (list N) * list (list N) * list (list N) * list N.
+Definition ok_sp (c : sp_case) : bool :=
+  let '(lcache, nthr, sc, notes, stack, helds, caches, counters) := c in
+  let cf := {| s_lcache := lcache; s_reuse := true |} in
+  let '(s, ev) := srun_trace cf (sinit nthr) sc in
+  let '(f1, f2, f3, f4) := sfinal_obs s 200 in
+  eqb_ln (flat ev) notes && eqb_oln f1 stack && eqb_lln f2 helds && eqb_lln f3 caches && eqb_ln f4 counters.
+
 Inductive xcase :=
 | XTag (c : tag_case)
 | XTag2 (c : tag2_case)
-| XFC (c : fc_case).
+| XFC (c : fc_case)
+| XSP (c : sp_case).
 
 Definition xok (c : xcase) : bool :=
   match c with
   | XTag c => ok_tag c
   | XTag2 c => ok_tag2 c
   | XFC c => ok_fc c
+  | XSP c => ok_sp c
   end.
